@@ -4,6 +4,7 @@ From Coq Require Import List Arith Bool.
 Import ListNotations.
 Require Import PGM.Base.Alg PGM.Base.Sums PGM.Base.Qnn PGM.Model.BP PGM.Model.Query PGM.Proofs.QueryP PGM.Proofs.JTP PGM.Proofs.MleP.
 Require Import PGM.Proofs.JTreeP PGM.Proofs.WeightP PGM.Proofs.MleSepP.
+Require Import PGM.Base.PyFactor PGM.Gen.BP_gen PGM.Proofs.MleGenP.
 
 (* any two answers agree on the attributes they share *)
 Theorem C08_answers_agree_on_shared_attributes (R : SF) shape D ncl psi total A1 A2 S x :
@@ -55,6 +56,19 @@ Print Assumptions C08_mle_separators_are_tree_separators.
 Theorem C08_good_tree_has_single_tops scope a t p : good scope t -> length (tops scope a p t) <= 1.
 Proof. exact (good_single_top scope a t p). Qed.
 Print Assumptions C08_good_tree_has_single_tops.
+(* THE SAME FOR THE DEFINITION GENERATED FROM THE SOURCE: Gen/BP_gen.v contains the translation of GraphicalModel.mle (regenerated on
+   every run by translator/py2gallina_bp.py).  On a tree whose cliques are numbered in preorder (self.cliques) with one top per attribute,
+   fed the materialised clique tables mu_c, it returns at clique c the table  mu_c / (mu_c summed onto scope c /\ scope parent)  with the
+   guarded division of the code (the root is divided by its total mass): the factorisation of C08_mle_reproduces, up to the constant at the
+   root which belief_propagation's normalisation removes. *)
+Theorem C08_src_mle_is_factorisation (R : SF) shape D ncl scope (mu : nat -> tbl R) t :
+  (forall c, dep_on D (mu c)) -> nodes t = seq 0 ncl -> (forall a, length (tops scope a [] t) <= 1) ->
+  Forall (fun cp => forall x, valid shape x ->
+            @lk R D (nth (fst cp) (@mle R shape D ncl scope (marg R shape D ncl mu)) (@Leaf R (zero R))) x
+            = @sdiv R (mu (fst cp) x) (@sum_vars R shape (diff (scope (fst cp)) (snd cp)) (mu (fst cp)) x))
+         (with_parent scope [] t).
+Proof. intros Hd. exact (mle_gen_is_factorisation R shape D ncl scope mu Hd t). Qed.
+Print Assumptions C08_src_mle_is_factorisation.
 (* non-vacuity: chain [0,1]-[1,2]-[2,3] rooted at the middle clique; walked 1, 0, 2 with separators {}, {1}, {2} *)
 Example C08_mle_walk_example :
   let scope := fun c => nth c [[0;1];[1;2];[2;3]] [] in
